@@ -3,6 +3,7 @@
 package harness
 
 import (
+	"fmt"
 	"sort"
 	"testing/synctest"
 	"time"
@@ -325,27 +326,36 @@ func (r *Runner) heal() {
 		}
 	}
 	c.Settle()
-	deadline := time.Now().Add(time.Duration(bound) * c.ET)
+	begin := time.Now()
+	deadline := begin.Add(time.Duration(bound) * c.ET)
 	probe := 0
 	probed := false
 	for time.Now().Before(deadline) {
 		time.Sleep(c.HB)
 		synctest.Wait()
 		c.Observe()
-		if probed {
-			continue
-		}
-		// once there is a single leader, give it one fresh operation to commit
 		var leaders []*Node
 		for _, id := range ids {
 			if n := c.node(id); n.running && n.r.Status().State == 0 {
 				leaders = append(leaders, n)
 			}
 		}
-		if len(leaders) == 1 && time.Since(deadline.Add(-time.Duration(bound)*c.ET)) > 4*c.ET {
-			probe = c.Submit(leaders[0], "probe", 0, 10*c.ET)
-			probed = true
-			c.rec.Emit("probe", Ev{"op": probe, "node": leaders[0].id})
+		if len(leaders) != 1 {
+			continue
+		}
+		if !probed {
+			// once there is a single leader, give it one fresh operation to commit
+			if time.Since(begin) > 3*c.ET {
+				probe = c.Submit(leaders[0], "probe", 0, 10*c.ET)
+				probed = true
+				c.rec.Emit("probe", Ev{"op": probe, "node": leaders[0].id})
+			}
+			continue
+		}
+		// stop early once every running member has caught up with the leader (the bound
+		// only matters when that does not happen)
+		if time.Since(begin) > 6*c.ET && r.converged(leaders[0], ids) {
+			break
 		}
 	}
 	c.Settle()
@@ -365,6 +375,38 @@ func (r *Runner) heal() {
 			"applied": int(st.LastApplied), "content": content, "cfg": cfgEv(&cfg)})
 	}
 	c.rec.Emit("heal_done", Ev{"probe": probe})
+}
+
+// converged: the probe was applied by the leader and every running member of the leader's
+// configuration holds the same applied sequence.
+func (r *Runner) converged(leader *Node, ids []string) bool {
+	c := r.c
+	cfg := leader.r.Configuration()
+	leader.fsm.mu.Lock()
+	want := fmt.Sprint(leader.fsm.ops)
+	hasProbe := false
+	for _, o := range leader.fsm.ops {
+		if o.V == "probe" {
+			hasProbe = true
+		}
+	}
+	leader.fsm.mu.Unlock()
+	if !hasProbe {
+		return false
+	}
+	for _, id := range ids {
+		n := c.node(id)
+		if _, member := cfg.Members[id]; !member || !n.running {
+			continue
+		}
+		n.fsm.mu.Lock()
+		got := fmt.Sprint(n.fsm.ops)
+		n.fsm.mu.Unlock()
+		if got != want {
+			return false
+		}
+	}
+	return true
 }
 
 // Run executes the scenario inside the current bubble.
